@@ -4,7 +4,7 @@ import pk, src
 from common import jhash, first_diff
 from pkgrun import *
 
-PROF = profile(tokens=True, no_textbox_in_link=True, p_no_r_ns=0.12, p_drawing=0.1, p_text=0.5, run_items=(0, 4), inlines=(0, 5), p_link=0.1, p_bookmark=0.1, p_textbox=0.06,
+PROF = profile(tokens=True, stray_inline=True, p_block_misc=0.12, p_no_r_ns=0.12, p_drawing=0.1, p_text=0.5, run_items=(0, 4), inlines=(0, 5), p_link=0.1, p_bookmark=0.1, p_textbox=0.06,
                p_table=0.22, dangling=True)
 RULE = ('packages from the "inline-rich" profile: every w:t / m:t carries a unique token, runs are split arbitrarily and interleaved '
         'with non-content markup, links, notes, forms, pictures, text boxes, tables with merged cells; html off, both settings of '
@@ -17,7 +17,7 @@ LABEL = re.compile(r'^(footnote|endnote)[^)\t]*\)\t')
 ATTR = {'officeDocument': 'body', 'header': 'header', 'footer': 'footer', 'footnotes': 'footnotes', 'endnotes': 'endnotes'}
 
 
-def check_part(ctx, case, outpars, srcpars, dup, features, mult=None):
+def check_part(ctx, case, outpars, srcpars, dup, features, mult=None, roots=None):
     """outpars: flat list of output paragraph strings of one attribute; srcpars: ParInfo of the parts feeding it"""
     toks_out = [src.TOKEN.findall(s) for s in outpars]
     where = {}
@@ -36,7 +36,7 @@ def check_part(ctx, case, outpars, srcpars, dup, features, mult=None):
         if not dup and any(len(where.get(t, [])) != k or any(toks_out[w].count(t) != 1 for w in where[t]) for t in p.tokens):
             ctx.fail('a text node occurs more than once (or not at all) in the output', case, {'paragraph': p.k, 'part': p.part, 'tokens': p.tokens, 'where': {t: where.get(t) for t in p.tokens}}, features=features); bad = True; continue
         i = occ[0]
-        if toks_out[i] != p.tokens:
+        if not p.same_text(toks_out[i]):
             ctx.fail('text migrated between paragraphs or changed order inside one', case, {'paragraph': p.k, 'part': p.part, 'source_tokens': p.tokens, 'output_paragraph': outpars[i]}, features=features); bad = True; continue
         # tokens and alt-text markers in document order
         ATOM = re.compile(r'«(\d+)»|----Image alt text---->([^<]*)<')
@@ -46,7 +46,7 @@ def check_part(ctx, case, outpars, srcpars, dup, features, mult=None):
             elif src.ptag(x) == 'wp:docPr' and x.get('descr') is not None and '<' not in x.get('descr'): want_atoms.append(('alt', x.get('descr')))
         got_atoms = [('t', m.group(1)) if m.group(1) else ('alt', m.group(2)) for m in ATOM.finditer(outpars[i])]
         clean = not any(src.ptag(x) == 'wp:docPr' and '<' in (x.get('descr') or '') for x in p.own)      # a description with '<' cannot be delimited
-        if clean and got_atoms != want_atoms and any(k == 'alt' for k, _ in want_atoms):
+        if clean and not p.loose and got_atoms != want_atoms and any(k == 'alt' for k, _ in want_atoms):
             ctx.fail('text and picture stand-ins of a paragraph are not in document order', case, {'paragraph': p.k, 'part': p.part, 'expected_order': want_atoms, 'output_paragraph': outpars[i]}, features=features); bad = True; continue
         # every text node in full (also whitespace-only ones), in order
         pos = 0
@@ -74,6 +74,45 @@ def check_part(ctx, case, outpars, srcpars, dup, features, mult=None):
                 ctx.fail('number of newlines differs from the number of breaks in the paragraph', case,
                          {'paragraph': p.k, 'part': p.part, 'expected_breaks': p.breaks, 'output_paragraph': outpars[i]}, features=features); bad = True; continue
     known = {t for p in srcpars for t in p.tokens}
+    # inline content OUTSIDE every paragraph (a display equation directly in the body, a run directly in a cell): it is collected into
+    # a paragraph of its own, which holds nothing else and stands where the content stands - after every paragraph that ends before
+    # it and before every paragraph that begins after it
+    for root in (roots or []):
+        pos = {x: n for n, x in enumerate(root.iter())}
+        spans = []
+        for q in srcpars:
+            if q.e not in pos or q.in_continuation or q.in_link or not q.tokens or q.nested_in_par: continue
+            last = q.e
+            for last in q.e.iterdescendants(): pass
+            spans.append((pos[q.e], pos[last], q))
+        for x in root.iter():
+            if not isinstance(x.tag, str) or src.ptag(x) not in ('w:t', 'm:t'): continue
+            anc = [src.ptag(a) for a in x.iterancestors()]
+            if 'w:p' in anc or 'w:hyperlink' in anc: continue
+            hidden = False
+            for a in x.iterancestors():
+                if src.ptag(a) == 'w:tc':
+                    pr = src.child(a, 'w:tcPr'); vm = src.child(pr, 'w:vMerge') if pr is not None else None
+                    if vm is not None and src.wval(vm) in (None, 'continue'): hidden = True
+            for t in src.TOKEN.findall(x.text or ''):
+                known.add(t)
+                if hidden: continue
+                occ = where.get(t, [])
+                if not occ:
+                    ctx.fail('text outside every paragraph is missing from the output', case, {'token': t}, features=features + ['stray_inline']); bad = True; continue
+                if not dup and any(toks_out[w].count(t) != 1 for w in occ):
+                    ctx.fail('a text node occurs more than once (or not at all) in the output', case, {'token': t, 'where': occ}, features=features + ['stray_inline']); bad = True; continue
+                i = occ[0]
+                before = [q for a, b, q in spans if b < pos[x]]; after = [q for a, b, q in spans if a > pos[x]]
+                own_par = {u for q in srcpars for u in q.tokens}
+                if any(u in own_par for u in toks_out[i]):
+                    ctx.fail('text outside every paragraph is mixed into the record of a paragraph', case, {'token': t, 'output_paragraph': outpars[i]}, features=features + ['stray_inline']); bad = True; continue
+                if not dup and len(occ) == 1:
+                    ib = [where[q.tokens[0]][0] for q in before[-1:] if where.get(q.tokens[0])]
+                    ia = [where[q.tokens[0]][0] for q in after[:1] if where.get(q.tokens[0])]
+                    if (ib and not ib[0] < i) or (ia and not i < ia[0]):
+                        ctx.fail('text outside every paragraph is not in document order', case,
+                                 {'token': t, 'output_index': i, 'previous_paragraph_at': ib, 'next_paragraph_at': ia}, features=features + ['stray_inline']); bad = True; continue
     for t in where:
         if t not in known:
             ctx.fail('output contains text that does not derive from the part', case, {'token': t}, features=features); return False
@@ -92,7 +131,7 @@ def one(ctx, data, meta=None, opts=((False, True), (False, False))):
             paths = [path for t, path in sorted(cps, key=lambda x: x[1]) if t == ty and path in parts]
             mult = {path: paths.count(path) for path in paths}
             sp = [p for path in dict.fromkeys(paths) for p in src.paragraphs(parts[path], path)]
-            if not check_part(ctx, {**case, 'attribute': attr}, flat(i[attr]['ok'], 4), sp, dup, feats, mult): good = False
+            if not check_part(ctx, {**case, 'attribute': attr}, flat(i[attr]['ok'], 4), sp, dup, feats, mult, roots=[parts[path] for path in dict.fromkeys(paths)]): good = False
     if good: ctx.validated += 1
     if meta and meta['stats'].get('ri:text', 0) >= 5 and meta['stats'].get('par', 0) >= 3: ctx.nontrivial(jhash(data.hex()))
     return good
